@@ -293,7 +293,7 @@ def _check_tensor(T4):
             back = t.tensor_fold(M, mode, T4.shape[:3])
             if back.shape != Tq.shape or rt.q_to4(back).tobytes() != T4.astype(float).tobytes():
                 return {"what": f"fold(unfold) mode {mode} ({lay}) is not the identity"}
-            if abs(rt.real().utils.quat_frobenius_norm(M) - t.tensor_frobenius_norm(Tq)) > 1e-12 * max(1, rt.fro(T4)):
+            if not (abs(rt.real().utils.quat_frobenius_norm(M) - t.tensor_frobenius_norm(Tq)) <= 1e-12 * max(1, rt.fro(T4))):
                 return {"what": "unfolding changed the Frobenius norm"}
             if not np.array_equal(np.sort(t.tensor_entrywise_abs(Tq).ravel()), np.sort(np.abs(M).ravel())):
                 return {"what": "unfolding changed the multiset of moduli"}
@@ -414,7 +414,7 @@ def bounded(rep: Report, tier, seed):
                 N = q.add_awgn_snr(Qi, snr_db, rng=g) - Qi
                 ratios.append(np.sum(Qi ** 2) / np.sum(N ** 2))
             got = 10 * np.log10(np.mean(ratios))
-            if abs(got - snr_db) > 1.0:
+            if not (abs(got - snr_db) <= 1.0):
                 return {"what": "measured SNR off by more than 1 dB", "snr_db": snr_db, "measured": got}
         if not np.array_equal(q.add_awgn_snr(np.zeros((2, 2, 4)), 10.0, rng=g), np.zeros((2, 2, 4))):
             return {"what": "noise added to the zero image"}
